@@ -234,11 +234,12 @@ func urlValueDiff(want, got any, has bool) string {
 		}
 		return "boolean differs"
 	case json.Number:
-		if g, ok := num(got); ok && model.NumEqual(w, g) {
-			if _, isStr := got.(string); isStr {
-				return "" // a number given as a decimal string: the same value
-			}
+		// documented as a JSON number (32-bit kinds, floats, 64-bit kinds with NUMBER encoding): the handler must get a number
+		if g, ok := got.(json.Number); ok && model.NumEqual(w, g) {
 			return ""
+		}
+		if _, isStr := got.(string); isStr {
+			return "documented as a number, handed over as a string"
 		}
 		return "number differs"
 	case string:
@@ -246,9 +247,13 @@ func urlValueDiff(want, got any, has bool) string {
 			return ""
 		}
 		if wn, ok := num(w); ok {
-			// 64-bit integer documented as a decimal string: handed over as a number or as another spelling of the same value
-			if gn, ok := num(got); ok && model.NumEqual(wn, gn) {
-				return ""
+			// 64-bit integer documented as a decimal string: another spelling of the same value (leading zeros) is the same value
+			if gs, isStr := got.(string); isStr {
+				if gn, ok := num(gs); ok && model.NumEqual(wn, gn) {
+					return ""
+				}
+			} else if _, isNum := got.(json.Number); isNum {
+				return "documented as a decimal string, handed over as a number"
 			}
 		}
 		return "string differs"
